@@ -212,6 +212,18 @@ bool c20::run_part1(std::string const& op, Toks& in, Out& impl, Out& ref)
         op_refwf<StdLib>(ac, ref);
         return true;
     }
+    if (op == "wctor") {
+        int fc = i(), a1 = i(), a2 = i();
+        op_wctor<EtlLib>(fc, a1, a2, impl);
+        op_wctor<StdLib>(fc, a1, a2, ref);
+        return true;
+    }
+    if (op == "wrapcopy") {
+        auto x = in.num(), y = in.num();
+        op_wrapcopy<EtlLib>(x, y, impl);
+        op_wrapcopy<StdLib>(x, y, ref);
+        return true;
+    }
     if (op == "bindfront2") {
         int wc = i(), a1 = i(), a2 = i();
         op_bindfront2<EtlLib>(wc, a1, a2, impl);
